@@ -12,6 +12,7 @@ Local Open Scope R_scope.
 Section Spectrum.
   Variable K : oracles R.
   Variable minpos : R.
+  Variable old_poling old_idler : bool.      (* the two source-derived flags of try_as_optimum (Model/Config.v) *)
   Variable jsa_raw : spdc R -> R -> R -> C.            (* setup, omega_s, omega_i *)
   Variable singles_raw : spdc R -> R -> R -> R.
   Variable norm_jsi : spdc R -> R -> R -> R.           (* jsi_normalization / JsiNorm::new(1.) *)
@@ -37,7 +38,7 @@ Section Spectrum.
 
   (* JointSpectrum::new: the two reference values come from the centre of the OPTIMISED clone *)
   Definition joint_spectrum_new (s : spdc R) : outcome joint_spectrum :=
-    match try_as_optimum R_ops K minpos s with
+    match try_as_optimum R_ops K minpos old_poling old_idler s with
     | Ok (so, _) =>
         let '(ws0, wi0) := center so in
         Ok {| js_spdc := s;
@@ -79,7 +80,7 @@ Section Spectrum.
                   let j := (Cmod (jsa_raw s ws wi)) ^ 2 in
                   if Req_EM_T j 0 then 0 else j * norm_jsi s ws wi) setups.
   Definition jsi_values_normalized (base : spdc R) (setups : list (spdc R)) : outcome (list R) :=
-    match try_as_optimum R_ops K minpos base with
+    match try_as_optimum R_ops K minpos old_poling old_idler base with
     | Ok (opt, _) =>
         let '(w0s, w0i) := center opt in
         let jsi_center := (Cmod (jsa_raw opt w0s w0i)) ^ 2 * norm_jsi opt w0s w0i in
